@@ -286,25 +286,27 @@ class _ThreadingReadWriteLock(ReadWriteLock):  # pragma: no cover
     def subsystem(self) -> str:
         return 'threading'
 
-    def _acquire_read(self) -> bool:
+    def _acquire_read(self) -> None:
         with self._read_lock:
+            if self._counter == 0:
+                # the first reader waits for the writer while it keeps the
+                # other readers out
+                self._write_lock.acquire()
             self._counter += 1
-            return self._counter == 1
 
-    def _release_read(self) -> bool:
+    def _release_read(self) -> None:
         with self._read_lock:
             self._counter -= 1
-            return self._counter == 0
+            if self._counter == 0:
+                self._write_lock.release()
 
     @asynccontextmanager
     async def read_lock(self) -> AsyncIterator[None]:
-        if self._acquire_read():
-            self._write_lock.acquire()
+        self._acquire_read()
         try:
             yield
         finally:
-            if self._release_read():
-                self._write_lock.release()
+            self._release_read()
 
     @asynccontextmanager
     async def write_lock(self) -> AsyncIterator[None]:
